@@ -24,6 +24,7 @@
 #include <pthread.h>
 #include <dlfcn.h>
 #include <sys/syscall.h>
+#include <sys/utsname.h>
 
 static pthread_mutex_t mu = PTHREAD_MUTEX_INITIALIZER;
 static int inited = 0;
@@ -172,3 +173,36 @@ static char *env_seam(const char *name) {
 
 char *getenv(const char *name) { return env_seam(name); }
 char *secure_getenv(const char *name) { return env_seam(name); }
+
+/* host name and user id: seeded when VERIF_HOSTNAME / VERIF_FAKE_UID are set */
+int gethostname(char *name, size_t len) {
+    const char *h = real_getenv ? real_getenv("VERIF_HOSTNAME") : 0;
+    if (!real_getenv) { real_getenv = (char *(*)(const char *))dlsym(RTLD_NEXT, "getenv"); h = real_getenv ? real_getenv("VERIF_HOSTNAME") : 0; }
+    if (!h) {
+        struct utsname u;
+        if (syscall(SYS_uname, &u) != 0) return -1;
+        h = u.nodename;
+        strncpy(name, h, len);
+        if (len) name[len - 1] = 0;
+        return 0;
+    }
+    strncpy(name, h, len);
+    if (len) name[len - 1] = 0;
+    return 0;
+}
+
+int uname(struct utsname *u) {
+    int r = (int)syscall(SYS_uname, u);
+    if (!real_getenv) real_getenv = (char *(*)(const char *))dlsym(RTLD_NEXT, "getenv");
+    const char *h = real_getenv ? real_getenv("VERIF_HOSTNAME") : 0;
+    if (r == 0 && h) { strncpy(u->nodename, h, sizeof(u->nodename) - 1); u->nodename[sizeof(u->nodename) - 1] = 0; }
+    return r;
+}
+
+static long fake_uid(void) {
+    if (!real_getenv) real_getenv = (char *(*)(const char *))dlsym(RTLD_NEXT, "getenv");
+    const char *v = real_getenv ? real_getenv("VERIF_FAKE_UID") : 0;
+    return v ? strtol(v, NULL, 10) : -1;
+}
+uid_t getuid(void) { long f = fake_uid(); return f >= 0 ? (uid_t)f : (uid_t)syscall(SYS_getuid); }
+uid_t geteuid(void) { long f = fake_uid(); return f >= 0 ? (uid_t)f : (uid_t)syscall(SYS_geteuid); }
